@@ -9,6 +9,9 @@ pub struct OsIpcReceiver { pub ghost rid: int }
 pub enum IpcError { Bincode(BincodeError), Io(IoError), Disconnected }
 pub enum TryRecvError { IpcError(IpcError), Empty }
 pub use std::time::Duration;
+pub assume_specification [std::time::Duration::as_millis] (d: &std::time::Duration) -> u128;
+pub assume_specification [std::time::Duration::as_secs] (d: &std::time::Duration) -> u64;
+pub assume_specification [std::time::Duration::is_zero] (d: &std::time::Duration) -> bool;
 pub enum RecvKind { Blocking, Nonblocking, Timeout(Duration) }
 pub struct OsIpcSender { pub ghost xid: int }
 pub struct OsOpaqueIpcChannel { pub ghost cid: int }
